@@ -5,6 +5,7 @@
    `C39 machine ct now [kind,…] [op,…]`         → `ok [[[ev,…],running,[deadline,…],[inflight,…]],…]`
                 op = [start] | [stop] | [fire] | [sleep,d] | [complete,i,T|F] | [iter,late,T|F,[[stop]|[start]|[block,d],…]]
    `C39 trace   [op,…] [[ev,…],…]`              → `ok [clause,…]`           (Spec.traceViolations)
+   `C39 sched   ct start now d prev|~`          → `ok [clause,…]`           (Spec.schedViolations: a machine deadline vs the latest start)
    `C39 ctor    period obs|~ halfulp`           → `ok [n,d]|~ T|F`          (Model.ctor, Spec.ctorAgrees); period = [ms,[n,d]] | [td,us]
    `C39 ctorspec period obs|~`                  → `ok [clause,…]`           (Spec.ctorViolations)
 -/
@@ -110,6 +111,12 @@ def handle (toks : List String) : String :=
       match ops.list? >>= (·.mapM decOp), evs.list? >>= (·.mapM (fun l => l.list? >>= (·.mapM decEv))) with
       | some ops, some evs => ok [.list ((Spec.traceViolations ops evs).map V.atom)]
       | _, _ => err "bad-arg"
+    | some "sched", [ct, st, now, d, prev] =>
+      match decRat ct, decRat st, decRat now, decRat d, decObs prev with
+      | some ct, some st, some now, some d, some prev =>
+        if ct = 0 then err "ZeroDivisionError" else
+        ok [.list ((Spec.schedViolations ct st now d prev).map V.atom)]
+      | _, _, _, _, _ => err "bad-rat"
     | some "ctor", [p, obs, hu] =>
       match decPeriod p, decObs obs, decRat hu with
       | some p, some obs, some hu =>
